@@ -323,8 +323,8 @@ Definition scriptcache_spec : list (string * list string) := [
    (dedicated connection: PoolSize 1) for r's address, type and password -- never the pooled one -- and the bridge's
    Close closes that client only; kv.New builds one wrapper per shard from the shard's Config (cfg.NewRedis())
    and registers it with the shard's weight.
-   ! CreateBlockingNode does not pass r's TLS setting on (no TLSConfig): a blocking node of a WithTLS() instance
-     cannot talk to a TLS-only server (builder's report, round 4). *)
+   CreateBlockingNode passes r's TLS setting on exactly as getClient / getCluster do (TLSConfig from r.tls in both
+   branches; defect D18, repaired in 10db6ba): a blocking node dials with TLS iff the instance was built WithTLS(). *)
 Definition construction_spec : list (string * list string) := [
   ("New", ["r := & Redis { Addr : p0 , Type : NodeType , brk : breaker.New ( breaker.WithName ( p0 ) ) , }"; "for _ , opt := range p1 { opt ( r ) ; }"; "return r"]);
   ("WithCluster", ["return func ( r * Redis ) { r.Type = ClusterType ; }"]);
@@ -332,7 +332,7 @@ Definition construction_spec : list (string * list string) := [
   ("WithTLS", ["return func ( r * Redis ) { r.tls = true ; }"]);
   ("getRedis", ["switch p0.Type { case ClusterType : return getCluster ( p0 ) ; case NodeType : return getClient ( p0 ) ; default : return nil , fmt.Errorf ( ""\u4E0D\u652F\u6301 redis \u7C7B\u578B '%s'"" , p0.Type ) ; }"]);
   ("Config.NewRedis", ["var opts [ ] Option"; "if c.Type == ClusterType { opts = append ( opts , WithCluster ( ) ) ; }"; "if len ( c.Pass ) > 0 { opts = append ( opts , WithPass ( c.Pass ) ) ; }"; "if c.Tls { opts = append ( opts , WithTLS ( ) ) ; }"; "return New ( c.Host , opts ... )"]);
-  ("CreateBlockingNode", ["timeout := readWriteTimeout + blockingQueryTimeout"; "switch p0.Type { case NodeType : client := red.NewClient ( & red.Options { Addr : p0.Addr , Password : p0.Pass , DB : defaultDatabase , MaxRetries : maxRetries , PoolSize : 1 , MinIdleConns : 1 , ReadTimeout : timeout , } ) ; return & clientBridge { client } , nil ; case ClusterType : client := red.NewClusterClient ( & red.ClusterOptions { Addrs : [ ] string { p0.Addr } , Password : p0.Pass , MaxRetries : maxRetries , PoolSize : 1 , MinIdleConns : 1 , ReadTimeout : timeout , } ) ; return & clusterBridge { client } , nil ; default : return nil , fmt.Errorf ( ""\u672A\u77E5\u7684 redis \u7C7B\u578B: %s"" , p0.Type ) ; }"]);
+  ("CreateBlockingNode", ["timeout := readWriteTimeout + blockingQueryTimeout"; "var tlsConfig * tls.Config"; "if p0.tls { tlsConfig = & tls.Config { InsecureSkipVerify : true } ; }"; "switch p0.Type { case NodeType : client := red.NewClient ( & red.Options { Addr : p0.Addr , Password : p0.Pass , DB : defaultDatabase , MaxRetries : maxRetries , PoolSize : 1 , MinIdleConns : 1 , ReadTimeout : timeout , TLSConfig : tlsConfig , } ) ; return & clientBridge { client } , nil ; case ClusterType : client := red.NewClusterClient ( & red.ClusterOptions { Addrs : [ ] string { p0.Addr } , Password : p0.Pass , MaxRetries : maxRetries , PoolSize : 1 , MinIdleConns : 1 , ReadTimeout : timeout , TLSConfig : tlsConfig , } ) ; return & clusterBridge { client } , nil ; default : return nil , fmt.Errorf ( ""\u672A\u77E5\u7684 redis \u7C7B\u578B: %s"" , p0.Type ) ; }"]);
   ("clientBridge.Close", ["if err := b.Client.Close ( ) ; err != nil { logx.Errorf ( ""\u5173\u95ED redis \u5BA2\u6237\u7AEF\u65F6\u51FA\u9519\uFF1A%s"" , err ) ; }"]);
   ("clusterBridge.Close", ["if err := b.ClusterClient.Close ( ) ; err != nil { logx.Errorf ( ""\u5173\u95ED redis \u96C6\u7FA4\u5BA2\u6237\u7AEF\u65F6\u51FA\u9519\uFF1A%s"" , err ) ; }"]);
   ("kv.New", ["if len ( p0 ) == 0 || cache.TotalWeights ( p0 ) <= 0 { log.Fatal ( ""\u672A\u914D\u7F6E\u7F13\u5B58\u8282\u70B9"" ) ; }"; "dispatcher := hash.NewConsistentHash ( )"; "for _ , cfg := range p0 { rds := cfg.NewRedis ( ) ; dispatcher.AddWithWeight ( rds , cfg.Weight ) ; }"; "return kvStore { dispatcher : dispatcher , }"])
